@@ -583,7 +583,8 @@ func (u *Unit) checkCalleeFrame(fc *frameCtx, pc *Term, fr *FrameSpec, name stri
 		}
 		var props []*Term
 		for _, r := range fr.Roots {
-			alts := []*Term{c.Ge(r, cx.bound)}
+			// root 0 is the backing array of a nil slice: nothing is written there
+			alts := []*Term{c.Ge(r, cx.bound), c.Eq(r, c.Int(0))}
 			for _, x := range cx.fr.Roots {
 				alts = append(alts, c.Eq(r, x))
 			}
